@@ -6,6 +6,7 @@ import (
 	"encoding/hex"
 	"errors"
 	"fmt"
+	"reflect"
 	"sort"
 	"strings"
 	"testing"
@@ -46,7 +47,8 @@ type ProposerIn struct {
 }
 
 type V2In struct {
-	BadField  int           `json:"bad_field,omitempty"` // 0 = every scalar field parses; k>0 = the k-th kind of invalid field
+	BadField  int           `json:"bad_field,omitempty"`  // 0 = every scalar field parses; k>0 = the k-th kind of invalid field
+	NullLists bool          `json:"null_lists,omitempty"` // an empty relays / proposers / proposer relays collection is written as null
 	Relays    []BaseRelayIn `json:"relays,omitempty"`
 	Proposers []ProposerIn  `json:"proposers,omitempty"`
 }
@@ -64,14 +66,16 @@ type V1EntryIn struct {
 
 type V1In struct {
 	BadField  int         `json:"bad_field,omitempty"`
+	NullLists bool        `json:"null_lists,omitempty"` // absent proposer_config / builder / empty builder relays are written as null
 	Proposers []V1EntryIn `json:"proposers,omitempty"`
 	Default   *V1PropIn   `json:"default"` // nil = null or absent
 	Explicit  bool        `json:"explicit_null,omitempty"`
 }
 
 type DocIn struct {
-	Kind    string `json:"kind"` // unavailable | malformed | version | v1 | v2
-	Variant int    `json:"variant,omitempty"`
+	Kind    string `json:"kind"`              // unavailable | malformed | version | v1 | v2 | bare
+	Variant int    `json:"variant,omitempty"` // malformed: which text; unavailable: 0 = the source fails, 1 = the accounts provider fails, 2 = no validating accounts
+	Raw     string `json:"raw,omitempty"`     // bare: the document text, a JSON value that is not an object (one of bareNullTexts / bareValueTexts)
 	Version uint64 `json:"version,omitempty"`
 	V1      *V1In  `json:"v1,omitempty"`
 	V2      *V2In  `json:"v2,omitempty"`
@@ -79,8 +83,37 @@ type DocIn struct {
 
 type ConfigStep struct {
 	Doc     DocIn       `json:"doc"`
-	Lookups [][2]uint64 `json:"lookups"` // (account id, pubkey id)
+	Lookups [][2]uint64 `json:"lookups"`          // (account id, pubkey id)
+	Source  string      `json:"source,omitempty"` // first step only: "" = static source (file), "http" = dynamic source (POST with the public keys)
 }
+
+// Bare documents: legal JSON values that are not objects, with the white space JSON allows around
+// them.  `null` passes the metadata probe (nothing is set: version 0) and reaches the v1 decoder;
+// every other value fails the probe.
+var bareNullTexts = []string{"null", " null", "null\n", "\t\r\n null \r\n", "\n\nnull  "}
+var bareValueTexts = []string{"true", "false", "0", "-1", "2", "1.5e3", `""`, `"null"`, `"{}"`, "[]", "[null]", `[{"version":2}]`, " true\n", "\n[ ]\n"}
+
+func bareIsNull(raw string) (isNull, known bool) {
+	for _, t := range bareNullTexts {
+		if t == raw {
+			return true, true
+		}
+	}
+	for _, t := range bareValueTexts {
+		if t == raw {
+			return false, true
+		}
+	}
+	return false, false
+}
+
+var malformedTexts = []string{``, `{`, `[]`, `"config"`, `{"version":"two"}`, `{"version":2,"relays":[]}`, `{"version":2,"proposers":{}}`,
+	`{"version":2,"relays":{"http://relay-1.c16.invalid":5}}`, `{"version":2,"proposers":[7]}`, `{"default_config":"x"}`,
+	`{"default_config":{"fee_recipient":"` + feeHex + `","builder":[]}}`, `{"proposer_config":[],"default_config":{"fee_recipient":"` + feeHex + `"}}`,
+	`{"version":2,"proposers":[{"proposer":"(","relays":{}}]}`, "\x00\x01", `{"version":2,"relays":{"a":{"gas_limit":5}}}`,
+	// (the first 15 are referenced by index from older corpus files; new ones are appended)
+	`nul`, `NULL`, `null null`, `null}`, `{"version":2}null`, `{"version":null,"default_config":7}`, `{"version":2,"relays":null,"proposers":7}`,
+	`{"default_config":{"fee_recipient":"` + feeHex + `","builder":{"enabled":null,"relays":7}}}`}
 
 // ---------------------------------------------------------------------------------------------
 
@@ -125,7 +158,7 @@ func (a cfgAccount) PublicKey() e2types.PublicKey { return cfgKey{a.id} }
 
 func accountName(id uint64) string { return fmt.Sprintf("<unknown>/acc%d", id) }
 
-func v1PropJSON(p *V1PropIn, bad bool) string {
+func v1PropJSON(p *V1PropIn, bad bool, nullLists bool) string {
 	if p == nil {
 		return "null"
 	}
@@ -134,7 +167,13 @@ func v1PropJSON(p *V1PropIn, bad bool) string {
 		fee = "0xzz"
 	}
 	if !p.HasBuilder {
+		if nullLists {
+			return fmt.Sprintf(`{"fee_recipient":"%s","gas_limit":"30000000","builder":null}`, fee)
+		}
 		return fmt.Sprintf(`{"fee_recipient":"%s","gas_limit":"30000000"}`, fee)
+	}
+	if nullLists && len(p.Relays) == 0 {
+		return fmt.Sprintf(`{"fee_recipient":"%s","builder":{"enabled":%v,"relays":null}}`, fee, p.Enabled)
 	}
 	rel := make([]string, len(p.Relays))
 	for i, a := range p.Relays {
@@ -150,10 +189,12 @@ func v1PropJSON(p *V1PropIn, bad bool) string {
 func docJSON(d DocIn) string {
 	switch d.Kind {
 	case "malformed":
-		return []string{``, `{`, `[]`, `"config"`, `{"version":"two"}`, `{"version":2,"relays":[]}`, `{"version":2,"proposers":{}}`,
-			`{"version":2,"relays":{"http://relay-1.c16.invalid":5}}`, `{"version":2,"proposers":[7]}`, `{"default_config":"x"}`,
-			`{"default_config":{"fee_recipient":"` + feeHex + `","builder":[]}}`, `{"proposer_config":[],"default_config":{"fee_recipient":"` + feeHex + `"}}`,
-			`{"version":2,"proposers":[{"proposer":"(","relays":{}}]}`, "\x00\x01", `{"version":2,"relays":{"a":{"gas_limit":5}}}`}[d.Variant%15]
+		if d.Variant < 15 {
+			return malformedTexts[d.Variant]
+		}
+		return malformedTexts[d.Variant%len(malformedTexts)]
+	case "bare":
+		return d.Raw
 	case "version":
 		return fmt.Sprintf(`{"version":%d,"relays":{}}`, d.Version)
 	case "v1":
@@ -162,15 +203,17 @@ func docJSON(d DocIn) string {
 		if len(v.Proposers) > 0 || v.BadField == 2 {
 			ents := make([]string, 0, len(v.Proposers)+1)
 			for i, e := range v.Proposers {
-				ents = append(ents, fmt.Sprintf("%q:%s", cfgPubkeyHex(e.Key), v1PropJSON(e.Prop, v.BadField == 3 && i == 0 && e.Prop != nil)))
+				ents = append(ents, fmt.Sprintf("%q:%s", cfgPubkeyHex(e.Key), v1PropJSON(e.Prop, v.BadField == 3 && i == 0 && e.Prop != nil, v.NullLists)))
 			}
 			if v.BadField == 2 {
-				ents = append(ents, `"0x1234":`+v1PropJSON(&V1PropIn{}, false)) // a key of the wrong length
+				ents = append(ents, `"0x1234":`+v1PropJSON(&V1PropIn{}, false, false)) // a key of the wrong length
 			}
 			parts = append(parts, `"proposer_config":{`+strings.Join(ents, ",")+`}`)
+		} else if v.NullLists {
+			parts = append(parts, `"proposer_config":null`)
 		}
 		if v.Default != nil {
-			parts = append(parts, `"default_config":`+v1PropJSON(v.Default, v.BadField == 1))
+			parts = append(parts, `"default_config":`+v1PropJSON(v.Default, v.BadField == 1, v.NullLists))
 		} else if v.Explicit {
 			parts = append(parts, `"default_config":null`)
 		}
@@ -189,11 +232,18 @@ func docJSON(d DocIn) string {
 			parts = append(parts, `"grace":"-5"`)
 		default:
 			parts = append(parts, `"fee_recipient":"`+feeHex+`"`, `"gas_limit":"30000000"`)
+			if v.NullLists {
+				// null scalars: encoding/json leaves the string fields empty, i.e. absent
+				parts = append(parts, `"grace":null`, `"min_value":null`)
+			}
 		}
 		if len(v.Relays) > 0 {
 			ents := make([]string, len(v.Relays))
 			for i, r := range v.Relays {
 				body := `{"min_value":"0.01"}`
+				if v.NullLists {
+					body = `{"min_value":"0.01","public_key":null,"grace":null,"fee_recipient":null}`
+				}
 				if r.Null {
 					body = "null"
 				} else if v.BadField == 5 && i == 0 {
@@ -202,6 +252,11 @@ func docJSON(d DocIn) string {
 				ents[i] = fmt.Sprintf("%q:%s", cfgAddr(r.Addr), body)
 			}
 			parts = append(parts, `"relays":{`+strings.Join(ents, ",")+`}`)
+		} else if v.NullLists {
+			parts = append(parts, `"relays":null`)
+		}
+		if len(v.Proposers) == 0 && v.NullLists {
+			parts = append(parts, `"proposers":null`)
 		}
 		if len(v.Proposers) > 0 {
 			ents := make([]string, len(v.Proposers))
@@ -230,6 +285,8 @@ func docJSON(d DocIn) string {
 				fields := []string{fmt.Sprintf(`"proposer":%q`, key)}
 				if v.BadField == 6 && i == 0 {
 					fields = append(fields, `"gas_limit":"-1"`)
+				} else if v.NullLists {
+					fields = append(fields, `"gas_limit":null`, `"grace":null`)
 				}
 				if p.Reset {
 					fields = append(fields, `"reset_relays":true`)
@@ -238,12 +295,17 @@ func docJSON(d DocIn) string {
 					rs := make([]string, len(p.Relays))
 					for j, r := range p.Relays {
 						body := fmt.Sprintf(`{"disabled":%v,"gas_limit":"1000000"}`, r.Disabled)
+						if v.NullLists {
+							body = fmt.Sprintf(`{"disabled":%v,"gas_limit":"1000000","public_key":null,"min_value":null}`, r.Disabled)
+						}
 						if r.Null {
 							body = "null"
 						}
 						rs[j] = fmt.Sprintf("%q:%s", cfgAddr(r.Addr), body)
 					}
 					fields = append(fields, `"relays":{`+strings.Join(rs, ",")+`}`)
+				} else if v.NullLists {
+					fields = append(fields, `"relays":null`)
 				}
 				ents[i] = "{" + strings.Join(fields, ",") + "}"
 			}
@@ -312,6 +374,11 @@ func docTerm(d DocIn) string {
 		return "DMalformed"
 	case "version":
 		return App("DVersion", N(d.Version))
+	case "bare":
+		if isNull, _ := bareIsNull(d.Raw); isNull {
+			return App("DBare", "BNull")
+		}
+		return App("DBare", "BValue")
 	case "v1":
 		ents := make([]string, len(d.V1.Proposers))
 		for i, e := range d.V1.Proposers {
@@ -354,21 +421,37 @@ func docTerm(d DocIn) string {
 
 // cfgSource is the scripted configuration source (majordomo) and accounts provider.
 type cfgSource struct {
-	text string
-	fail bool
+	text        string
+	fail        bool
+	accountsErr bool // the accounts provider fails: the refresh ends before anything is fetched
+	noAccounts  bool // no validating accounts: nothing is fetched
+	fetches     int
 }
 
-func (c *cfgSource) Fetch(context.Context, string) ([]byte, error) {
+func (c *cfgSource) Fetch(ctx context.Context, _ string) ([]byte, error) {
+	c.fetches++
+	if err := ctx.Err(); err != nil {
+		return nil, err
+	}
 	if c.fail {
 		return nil, errors.New("scripted configuration source failure")
 	}
 	return []byte(c.text), nil
 }
-func (c *cfgSource) ValidatingAccountsForEpoch(context.Context, phase0.Epoch) (map[phase0.ValidatorIndex]e2wtypes.Account, error) {
+func (c *cfgSource) accounts() (map[phase0.ValidatorIndex]e2wtypes.Account, error) {
+	switch {
+	case c.accountsErr:
+		return nil, errors.New("scripted accounts provider failure")
+	case c.noAccounts:
+		return map[phase0.ValidatorIndex]e2wtypes.Account{}, nil
+	}
 	return map[phase0.ValidatorIndex]e2wtypes.Account{1: cfgAccount{1}}, nil
 }
+func (c *cfgSource) ValidatingAccountsForEpoch(context.Context, phase0.Epoch) (map[phase0.ValidatorIndex]e2wtypes.Account, error) {
+	return c.accounts()
+}
 func (c *cfgSource) ValidatingAccountsForEpochByIndex(context.Context, phase0.Epoch, []phase0.ValidatorIndex) (map[phase0.ValidatorIndex]e2wtypes.Account, error) {
-	return map[phase0.ValidatorIndex]e2wtypes.Account{1: cfgAccount{1}}, nil
+	return c.accounts()
 }
 func (c *cfgSource) SyncCommitteeAccountsForEpoch(context.Context, phase0.Epoch) (map[phase0.ValidatorIndex]e2wtypes.Account, error) {
 	return nil, errors.New("not scripted")
@@ -389,21 +472,49 @@ func runConfig(t *testing.T, steps []ConfigStep) result {
 	if len(steps) > 0 && steps[0].Doc.Variant%7 == 3 {
 		level = zerolog.TraceLevel
 	}
-	svc := standardblockrelay.NewForVerifC16(level, src, "file:///execution-config.json", mocks.NewChainTime(32), src, bellatrix.ExecutionAddress{9}, 12345)
+	url := "file:///execution-config.json"
+	if len(steps) > 0 && steps[0].Source == "http" {
+		url = "https://config.c16.invalid/execution-config"
+		res.counts = append(res.counts, "source:http")
+	}
+	// ONE service instance for the whole history: what a refresh installs is what later lookups use.
+	svc := standardblockrelay.NewForVerifC16(level, src, url, mocks.NewChainTime(32), src, bellatrix.ExecutionAddress{9}, 12345)
+	book := enableRegistrations(svc)
 	dead := false // a refresh panicked: the service is not used any further
 	inSteps := make([]string, len(steps))
 	obsSteps := make([]string, len(steps))
 	obsJSON := []any{}
 	for i, st := range steps {
 		text := docJSON(st.Doc)
-		src.text, src.fail = text, st.Doc.Kind == "unavailable"
+		if st.Doc.Kind == "bare" {
+			if _, known := bareIsNull(st.Doc.Raw); !known {
+				t.Fatalf("bare document %q is not one of the classified texts", st.Doc.Raw)
+			}
+		}
+		unavailable := st.Doc.Kind == "unavailable"
+		src.text = text
+		src.fail = unavailable && st.Doc.Variant%3 == 0
+		src.accountsErr = unavailable && st.Doc.Variant%3 == 1
+		src.noAccounts = unavailable && st.Doc.Variant%3 == 2
 		var cfg blockrelay.ExecutionConfigurator
 		var err error
 		decPanic, decMsg := false, ""
-		if src.fail {
+		if unavailable {
 			err = errors.New("unavailable")
 		} else {
 			decPanic, decMsg = catch(func() { cfg, err = blockrelay.UnmarshalJSON([]byte(text)) })
+			// A configurator handed back with a nil error is there to be used.  If it is a nil pointer
+			// inside the (non-nil) interface, using it is part of the decode outcome.
+			if !decPanic && err == nil && cfg != nil {
+				if v := reflect.ValueOf(cfg); v.Kind() == reflect.Pointer && v.IsNil() {
+					res.counts = append(res.counts, "decoded-nil-pointer")
+					if p, m := catch(func() {
+						_, _ = cfg.ProposerConfig(ctx, cfgAccount{1}, cfgPubkey(1), bellatrix.ExecutionAddress{9}, 12345)
+					}); p {
+						decPanic, decMsg = true, "UnmarshalJSON returned a nil "+v.Type().String()+" with a nil error; using it: "+m
+					}
+				}
+			}
 		}
 		if !dead {
 			if p, m := catch(func() { svc.VerifC16FetchExecutionConfig(ctx) }); p {
@@ -458,15 +569,43 @@ func runConfig(t *testing.T, steps []ConfigStep) result {
 				outsJSON = append(outsJSON, addrs)
 			}
 		}
+		// the registration round that follows the refresh (the accounts provider is back if it was away)
+		src.accountsErr, src.noAccounts = false, false
+		reg, regJSON := panicT, any("service lost to an earlier panic")
+		if !dead {
+			ids, p, m := registrationRound(ctx, svc, book)
+			if p {
+				res.obs.Panic, res.obs.Message = true, m
+				regJSON = "panic: " + m
+			} else {
+				reg, regJSON = okT(nlist(ids)), ids
+			}
+		}
 		inSteps[i] = Pair(docTerm(st.Doc), List(lks))
-		obsSteps[i] = Pair(dec, List(outs))
-		obsJSON = append(obsJSON, map[string]any{"text": text, "decode": dec, "lookups": outsJSON})
+		obsSteps[i] = Pair(Pair(dec, List(outs)), reg)
+		obsJSON = append(obsJSON, map[string]any{"text": text, "decode": dec, "lookups": outsJSON, "registered_with": regJSON})
 
 		res.counts = append(res.counts, "doc:"+st.Doc.Kind)
 		switch st.Doc.Kind {
 		case "malformed", "version", "unavailable":
 			res.nontrivial = true
+			if unavailable {
+				res.counts = append(res.counts, []string{"unavailable:source", "unavailable:accounts-error", "unavailable:no-accounts"}[st.Doc.Variant%3])
+			}
+		case "bare":
+			res.nontrivial = true
+			if isNull, _ := bareIsNull(st.Doc.Raw); isNull {
+				res.counts = append(res.counts, "bare-null")
+				if i > 0 {
+					res.counts = append(res.counts, "bare-null-after-other-documents")
+				}
+			} else {
+				res.counts = append(res.counts, "bare-value")
+			}
 		case "v2":
+			if st.Doc.V2.NullLists {
+				res.counts = append(res.counts, "v2-null-collections")
+			}
 			for _, r := range st.Doc.V2.Relays {
 				if r.Null {
 					res.counts = append(res.counts, "null-relay")
@@ -492,6 +631,9 @@ func runConfig(t *testing.T, steps []ConfigStep) result {
 				res.counts = append(res.counts, "v2-bad-field")
 			}
 		case "v1":
+			if st.Doc.V1.NullLists {
+				res.counts = append(res.counts, "v1-null-collections")
+			}
 			if st.Doc.V1.Default == nil {
 				res.counts = append(res.counts, "v1-no-default")
 				res.nontrivial = true
@@ -531,17 +673,26 @@ func genV1Prop(r *Rand) *V1PropIn {
 	return p
 }
 
+func genBare(r *Rand) DocIn {
+	if r.Chance(2, 5) {
+		return DocIn{Kind: "bare", Raw: bareNullTexts[r.Intn(len(bareNullTexts))]}
+	}
+	return DocIn{Kind: "bare", Raw: bareValueTexts[r.Intn(len(bareValueTexts))]}
+}
+
 func genDoc(r *Rand) DocIn {
-	switch k := r.Intn(13); {
+	switch k := r.Intn(14); {
+	case k == 13:
+		return genBare(r)
 	case k < 1:
-		if r.Chance(1, 3) {
-			return DocIn{Kind: "unavailable"}
+		if r.Chance(1, 2) {
+			return DocIn{Kind: "unavailable", Variant: r.Intn(3)}
 		}
-		return DocIn{Kind: "malformed", Variant: r.Intn(15)}
+		return DocIn{Kind: "malformed", Variant: r.Intn(len(malformedTexts))}
 	case k < 2:
 		return DocIn{Kind: "version", Version: []uint64{1, 3, 7}[r.Intn(3)]}
 	case k < 5:
-		v := &V1In{}
+		v := &V1In{NullLists: r.Chance(1, 4)}
 		if r.Chance(1, 6) {
 			v.BadField = r.Range(1, 3)
 		}
@@ -565,7 +716,7 @@ func genDoc(r *Rand) DocIn {
 		}
 		return DocIn{Kind: "v1", V1: v}
 	default:
-		v := &V2In{}
+		v := &V2In{NullLists: r.Chance(1, 4)}
 		if r.Chance(1, 8) {
 			v.BadField = r.Range(1, 6)
 		}
@@ -623,6 +774,40 @@ func genConfig(r *Rand) []ConfigStep {
 		if r.Chance(1, 5) {
 			steps[i].Lookups = append([][2]uint64{{uint64(r.Range(1, 4)), uint64(r.Range(1, 5))}}, lookups...)
 		}
+	}
+	// family: a bare JSON value arrives as the whole document — first thing, or in the middle of a
+	// history so that the configuration in force must survive it — and the service is then used.
+	if r.Chance(1, 5) {
+		at := r.Intn(len(steps) + 1)
+		bare := ConfigStep{Doc: genBare(r), Lookups: lookups}
+		steps = append(steps[:at], append([]ConfigStep{bare}, steps[at:]...)...)
+	}
+	// family: a configuration with relays is in force, then a refresh that must not change it (a bare
+	// value, an unreadable source, a failing accounts provider, no accounts, malformed text), with the
+	// same questions before and after.
+	if r.Chance(1, 5) {
+		good := &V2In{NullLists: r.Bool()}
+		for a, n := uint64(1), uint64(r.Range(1, 3)); a <= n; a++ {
+			good.Relays = append(good.Relays, BaseRelayIn{Addr: a})
+		}
+		if r.Bool() {
+			good.Proposers = append(good.Proposers, ProposerIn{Key: "validator", Validator: lookups[0][1], Reset: r.Chance(1, 4),
+				Relays: []PRelayIn{{Addr: uint64(r.Range(1, 6)), Disabled: r.Chance(1, 3)}}})
+		}
+		var keep DocIn
+		switch k := r.Intn(6); {
+		case k < 2:
+			keep = genBare(r)
+		case k < 5:
+			keep = DocIn{Kind: "unavailable", Variant: r.Intn(3)}
+		default:
+			keep = DocIn{Kind: "malformed", Variant: r.Intn(len(malformedTexts))}
+		}
+		pre := []ConfigStep{{Doc: DocIn{Kind: "v2", V2: good}, Lookups: lookups}, {Doc: keep, Lookups: lookups}}
+		steps = append(pre, steps[:len(steps)-1]...)
+	}
+	if r.Chance(1, 4) {
+		steps[0].Source = "http"
 	}
 	return steps
 }
